@@ -293,11 +293,21 @@ func runWorker(known []knownFinding) {
 			}
 		}
 		// 1 % of the runs are re-executed and must give the same event log
-		if i%97 == 0 {
+		if i%97 == 0 || os.Getenv("SIMCHECK_RECHECK_ALL") != "" {
 			res2 := execPlan(plan)
 			out.Rechecked++
 			if res2.LogHash != res.LogHash || (res2.Violation == nil) != (res.Violation == nil) {
-				out.Infra = fmt.Sprintf("non-deterministic run: index %d seed %d: loghash %s vs %s", i, seed, res.LogHash, res2.LogHash)
+				diff := ""
+				for li := range res.Log {
+					if li >= len(res2.Log) || res.Log[li] != res2.Log[li] {
+						diff = fmt.Sprintf(" first difference at log line %d: %q", li, res.Log[li])
+						if li < len(res2.Log) {
+							diff += fmt.Sprintf(" vs %q", res2.Log[li])
+						}
+						break
+					}
+				}
+				out.Infra = fmt.Sprintf("non-deterministic run: index %d seed %d: loghash %s vs %s%s", i, seed, res.LogHash, res2.LogHash, diff)
 				break
 			}
 		}
@@ -379,6 +389,19 @@ func doReplay(path string) int {
 		p.Property = *fProp
 	}
 	res := execPlan(p)
+	if os.Getenv("SIMCHECK_TWICE") != "" {
+		res2 := execPlan(p)
+		for i := range res.Log {
+			if i >= len(res2.Log) || res.Log[i] != res2.Log[i] {
+				fmt.Printf("DIFF at line %d:\n  1: %s\n", i, res.Log[i])
+				if i < len(res2.Log) {
+					fmt.Printf("  2: %s\n", res2.Log[i])
+				}
+				break
+			}
+		}
+		fmt.Println("twice:", res.LogHash, res2.LogHash, len(res.Log), len(res2.Log))
+	}
 	out := replayOut{Infra: res.Infra, LogHash: res.LogHash}
 	for _, f := range res.Foreign {
 		out.Foreign = append(out.Foreign, f.Signature)
